@@ -47,12 +47,17 @@ fn module() -> RpcModule<()> {
 
 /// Server::start with the limit in the configuration, or the low-level service builder with `max_connections(limit)` set on it
 async fn start(entry: &str, limit: u32) -> (SocketAddr, jsonrpsee_server::ServerHandle) {
-    if entry == "service_builder" {
+    if entry == "service_builder" || entry == "service_builder_from_config" {
         use jsonrpsee_server::{serve_with_graceful_shutdown, stop_channel};
         let listener = tokio::net::TcpListener::bind("127.0.0.1:0").await.unwrap();
         let addr = listener.local_addr().unwrap();
         let (stop_handle, server_handle) = stop_channel();
-        let svc_builder = Server::builder().to_service_builder().max_connections(limit);
+        // the limit is set on the service builder itself, or comes with the configuration the service builder is made from
+        let svc_builder = if entry == "service_builder" {
+            Server::builder().to_service_builder().max_connections(limit)
+        } else {
+            Server::builder().set_config(ServerConfig::builder().max_connections(limit).build()).to_service_builder()
+        };
         let methods = module();
         tokio::spawn(async move {
             loop {
@@ -188,5 +193,49 @@ pub fn limits(a: &Value) -> Value {
             let _ = handle.stop();
         }
         json!({"scenario":"c11_limits","observed":{"limit":limit,"entry":entry},"violation":!why.is_empty(),"why":why.join(" | ")})
+    })
+}
+
+/// A WebSocket peer that stops answering pings while one of its calls is still running is closed by the server for inactivity:
+/// the slot it held must be free again although the handler never finishes.
+pub fn inactive_peer(_a: &Value) -> Value {
+    use jsonrpsee_server::PingConfig;
+    let rt = tokio::runtime::Builder::new_multi_thread().worker_threads(2).enable_all().build().unwrap();
+    rt.block_on(async move {
+        let ping = PingConfig::new().ping_interval(Duration::from_millis(100)).inactive_limit(Duration::from_millis(200)).max_failures(1);
+        let cfg = ServerConfig::builder().max_connections(1).enable_ws_ping(ping).build();
+        let server = Server::builder().set_config(cfg).build("127.0.0.1:0").await.unwrap();
+        let addr = server.local_addr().unwrap();
+        let (started_tx, mut started_rx) = tokio::sync::mpsc::unbounded_channel::<()>();
+        let mut m = RpcModule::new(started_tx);
+        m.register_async_method("never", |_, started, _| async move {
+            let _ = started.send(());
+            futures_util::future::pending::<()>().await;
+            "unreachable"
+        })
+        .unwrap();
+        let handle = server.start(m);
+        // the peer never reads from the socket, hence never answers a ping
+        let Ok((mut tx, _rx)) = ws_connect(addr).await else {
+            return json!({"scenario":"c11_inactive_peer","observed":{},"violation":true,"why":"first connection refused"});
+        };
+        let _ = tx.send_text(r#"{"jsonrpc":"2.0","method":"never","id":1}"#).await;
+        let _ = tx.flush().await;
+        let started = tokio::time::timeout(Duration::from_secs(5), started_rx.recv()).await.is_ok();
+        let refused_while_held = matches!(ws_connect(addr).await, Err(429));
+        let mut admitted_after_ms = None;
+        let t0 = std::time::Instant::now();
+        for _ in 0..30 {
+            tokio::time::sleep(Duration::from_millis(200)).await;
+            if ws_connect(addr).await.is_ok() {
+                admitted_after_ms = Some(t0.elapsed().as_millis() as u64);
+                break;
+            }
+        }
+        drop(tx);
+        let _ = handle.stop();
+        let violation = !started || admitted_after_ms.is_none();
+        json!({"scenario":"c11_inactive_peer","observed":{"handler_started":started,"second_refused_while_slot_held":refused_while_held,"admitted_after_ms":admitted_after_ms},
+               "violation":violation,"why": if violation {"the slot of a connection the server closed for inactivity was not released within 6 s (its handler is still running)"} else {""}})
     })
 }
